@@ -30,6 +30,10 @@ class DefaultDelay(SimpleCommand):
                 "Setting the default delay multiple times is unnecessary."
             )
 
+    def verify_arg(self, arg: Line) -> str | None:
+        if arg.content < 0:
+            return "Default delay value cannot be below 0."
+
     def run_compile(
         self, commandName: PreLine, arg: Line
     ) -> str | list[str] | CompiledReturn | None:
